@@ -100,3 +100,5 @@ func (m *multi) String() string     { return strings.Join(*m, ",") }
 func (m *multi) Set(s string) error { *m = append(*m, s); return nil }
 
 func join(cs []string) string { return strings.Join(cs, "") }
+
+func getenv(k string) string { return os.Getenv(k) }
